@@ -259,6 +259,7 @@ Expand(C, ts) ==
                               \cup (IF T.hs # {} THEN {"nested"} ELSE {})
                               \cup (IF M.va THEN {"va"} ELSE {})
                               \cup (IF sx THEN {"call_past_list_end"} ELSE {})
+                              \cup (IF T.hs \ Head(R).hs # {} THEN {"call_name_ends_list"} ELSE {})
                               \cup (IF A.gap >= 2 THEN {"call_past_2_list_ends"} ELSE {})
                               \cup (IF sx /\ \E j \in 1..Len(fl) : fl[j].k = "id" /\ fl[j].s \in fl[j].hs /\ fl[j].s \notin A.rhs
                                     THEN {"call_past_list_end_painted_arg"} ELSE {}))
